@@ -15,7 +15,7 @@ import pyPRISM
 
 PID = 'C08'
 RULE = ('cases = (family gaussian | yukawa | exponential | sphere indicator, width resolved by >= 8 coarse grid points and decayed to < 1e-12 at r_max, '
-        'amplitude 1e-15..1e6 of either sign, r_max in 25.6|51.2|102.4, coarse dr in 0.2|0.1|0.05 (0.4 for wide functions), 3 levels quick / 4 thorough; the levels are fresh Domains (dr or dk constructor) or ONE Domain refined through its dr/dk/length setters in either order); '
+        'amplitude 1e-15..1e6 of either sign, r_max in 25.6|51.2|102.4, coarse dr in 0.2|0.1|0.05 (0.4 for wide functions), 3 levels quick / 4 thorough; the transforms are called on 1-D arrays, on row-stacked 2-D arrays or through the MatrixArray entry points (flagged Real/Fourier or NonSpatial); the levels are fresh Domains (dr or dk constructor) or ONE Domain refined through its dr/dk/length setters in either order); '
         'each case = one refinement family judged at ~60 fixed wavenumbers, the k->0 limit and (gaussian/exponential) ~30 fixed r; '
         'non-trivial = all levels executed and at least one fixed-k error above the noise floor; distinct = distinct case digests')
 ASSUMPTIONS = ['closed forms: gaussian (pi/a)^1.5 exp(-k^2/4a); yukawa 4pi/(k^2+kappa^2); exponential 8 pi kappa/(k^2+kappa^2)^2; sphere 4pi(sin kR - kR cos kR)/k^3',
@@ -46,6 +46,7 @@ def cases(ctx):
             w = float(dr0 * rng.integers(8, int(0.5 * rmax / dr0)))
         yield {'kind': kind, 'w': w, 'A': float(10 ** (rng.uniform(-3, 3) if rng.random() < 0.6 else rng.uniform(-15, 6)) * rng.choice([-1, 1])), 'rmax': rmax, 'dr0': dr0,
                'levels': 4 if ctx.thorough() else 3,
+               'api': str(rng.choice(['array', 'array', 'stacked', 'ma_real', 'ma_nonspatial'])),
                'how': str(rng.choice(['fresh', 'fresh', 'fresh_dk', 'refine_dr_then_length', 'refine_length_then_dr', 'refine_length_then_dk']))}
 
 
@@ -92,9 +93,25 @@ def run_case(ctx, case):
             d.dk = math.pi / rmax
         r, k = np.asarray(d.r), np.asarray(d.k)
         f, F, V = analytic(kind, w, A, r, k)
-        Fn = d.to_fourier(f)
+        api = case.get('api', 'array')
+        if api == 'stacked':
+            # several functions transformed in one call (rows of a 2-D array)
+            Fn = np.asarray(d.to_fourier(np.stack([f, 2 * f, 0 * f])))[0]
+            fn = np.asarray(d.to_real(np.stack([F, -F])))[0]
+        elif api in ('ma_real', 'ma_nonspatial'):
+            # through the MatrixArray entry points; 'ma_nonspatial' = an array that lost its flag in arithmetic with a density array
+            from pyPRISM.core.MatrixArray import MatrixArray
+            from pyPRISM.core.Space import Space
+            m1 = MatrixArray(length=L, rank=1, data=np.array(f).reshape(L, 1, 1), space=(Space.Real if api == 'ma_real' else Space.NonSpatial), types=['A'])
+            d.MatrixArray_to_fourier(m1)
+            Fn = np.array(m1.data[:, 0, 0])
+            m2 = MatrixArray(length=L, rank=1, data=np.array(F).reshape(L, 1, 1), space=(Space.Fourier if api == 'ma_real' else Space.NonSpatial), types=['A'])
+            d.MatrixArray_to_real(m2)
+            fn = np.array(m2.data[:, 0, 0])
+        else:
+            Fn = d.to_fourier(f)
+            fn = d.to_real(F)
         keepF = np.array(Fn, copy=True)
-        fn = d.to_real(F)
         keepf = np.array(fn, copy=True)
         # further transforms on the same Domain (the caller still holds Fn and fn)
         other1 = d.to_fourier(np.cos(r) * f)
@@ -216,5 +233,6 @@ def run_case(ctx, case):
     ctx.count('rmax', rmax)
     ctx.count('dr0', dr0)
     ctx.count('levels_reached_by', how)
+    ctx.count('api', case.get('api', 'array'))
     ctx.sample({'function': kind, 'width': w, 'amplitude': A, 'r_max': rmax, 'dr_levels': [m['dr'] for m in fam], 'max_rel_err_per_level': emax.tolist(),
                 'richardson_err': rich, 'k0_err': e0}, limit=6)
